@@ -99,8 +99,10 @@ def run(ctx):
     combos = [(0, 0), (0, 1), (1, 0), (1, 2), (2, 0), (2, 3), (3, 1), (3, 4), (2, 5), (1, 5), (4, 0), (4, 2), (5, 0), (5, 1)] if ctx.quick() else [(c, r) for c in range(6) for r in range(6)]
     for c, r in combos:
         jobs.append(Job("c11.py", "h_scan", {"cfg": c, "root": r, "fix_f1": 0}, T, 60, tag=f"scan cfg{c} root#{r}", meta={"sigtag": "scan-selection", "twin": c == 0 and r == 0}))
-    for f1 in ((1, 3, 5, 12) if ctx.quick() else range(1, 13)):
+    for f1 in ((1, 3, 5, 12) if ctx.quick() else range(1, 15)):
         jobs.append(Job("c11.py", "h_scan", {"cfg": 1, "root": 0, "fix_f1": f1}, T, 60, tag=f"scan cfg1 root#0 top-level-file#{f1}", meta={"sigtag": "scan-selection", "twin": False}))
+    for f1 in (4, 13, 14):      # two extension-less names in one tree (one of them maps to a language by NAME): per-name lexer lookup, no per-extension shortcut
+        jobs.append(Job("c11.py", "h_scan", {"cfg": 0, "root": 0, "fix_f1": f1}, T, 60, tag=f"scan cfg0 root#0 top-level-file#{f1}", meta={"sigtag": "scan-selection", "twin": False}))
     jobs.append(Job("c11.py", "h_cli_sources", {}, T, 60, tag="exclusion sources through the CLI functions", meta={"sigtag": "exclusion-sources"}))
     ctx.bounds["sources"] = "the real __main__.scan / __main__.check with 3 option lists x 4 .codelimit.yml contents x 2 .gitignore contents (Configuration.load real, over the in-memory FS)"
     ctx.bounds.update({"E2": "path strings of any length (z3 string variable); one query per exclusion entry of 4 configurations", "trees": "main.py + top-level file + <D1>/m.py + <D1>/<D2>/<F3>, D1,D2 from 14 directory names, F from 13 file names (solver-chosen)",
